@@ -405,6 +405,9 @@ impl Float for Q {
     fn neg_zero() -> Q {
         Q::R(0, 1)
     }
+    fn epsilon() -> Q {
+        Q::from_f64_exact(f64::EPSILON)
+    }
     fn min_value() -> Q {
         Q::from_f64_exact(f64::MIN)
     }
